@@ -112,7 +112,8 @@ PROPS = {
     },
     'C18': {
         'sources': ['src/diagnostics/CheckupReliability.cpp', 'src/diagnostics/Diagnostic.cpp',
-                    'src/diagnostics/DiagnosticReport.cpp', 'src/diagnostics/DiagnosticStatus.cpp'],
+                    'src/diagnostics/DiagnosticReport.cpp', 'src/diagnostics/DiagnosticStatus.cpp',
+                    'src/geodesy/WGS84Coordinates.cpp'],
         'harness': 'c18_checkups.cpp',
         'flavour': 'asan',
         'level': 'model_checking',
